@@ -707,4 +707,5 @@ def run(chk):
                          "<emit_file::EventBatch as emit_batcher::Channel>::len", "Sub",
                          lambda o, b: o[0] == "call" and o[1].callee.get("name") == "len" and "bufs" in o_str(b.origin(o[1].args[0])), lambda o, b: "index" in o_str(o),
                          "a partly written batch would report the wrong number of pending events: the retry and the capacity accounting work on that number")
+    shapes.retry_when_nonempty(chk, P, "C10.batcher:retry-when-nonempty")
     return chk
